@@ -423,7 +423,8 @@ def generate(seed, tier):
         ops[-1] = dict(ops[-2], dt=r.choice([1, 86400]))
         ops[-1]['cut'] = None if ops[-1].get('cut') else ops[-1].get('cut')
     sw = {'scrub': r.random() < 0.5, 'base': r.choice(['minimal', 'minimal', 'full']),
-          'exec_ref': r.random() < 0.15, 'hashseed': r.randrange(1, 1 << 30)}
+          'exec_ref': r.random() < 0.15, 'hashseed': r.randrange(1, 1 << 30),
+          'texinputs': r.choice(['root', 'root', 'root', 'unset'])}     # (an EMPTY value comes back as unset: equivalent, not generated)
     if any(b in COLTYPE_PROGRAMS for o in ops for b in o['blocks']):
         # the column-type registry is an OPEN finding that cannot be scrubbed (a dict mutated in place): keep the other
         # open findings out of such a history, so that a V1 difference there is attributable to column types alone
@@ -861,8 +862,12 @@ def _materialise(record):
 
 def _run(jobs, sw, root, mode='fork', hashseed=0, full=False):
     os.makedirs(root, exist_ok=True)
-    setup = {'root': root, 'cwd': root, 'clock': jobs[0]['clock'], 'full': full,
-             'env': {'environ': {'HOME': root, 'TEXINPUTS': root}}}
+    environ = {'HOME': root, 'TEXINPUTS': root}
+    if sw.get('texinputs') == 'unset':
+        del environ['TEXINPUTS']                 # (the variable is juggled by TeX.kpsewhich: both of its branches matter)
+    elif sw.get('texinputs') == 'empty':
+        environ['TEXINPUTS'] = ''
+    setup = {'root': root, 'cwd': root, 'clock': jobs[0]['clock'], 'full': full, 'env': {'environ': environ}}
     args = {'jobs': [dict((k, v) for k, v in j.items() if k not in ('blocks',)) for j in jobs], 'full': full,
             'scrub': (scrub_patterns() if sw.get('scrub') and len(jobs) > 1 else None)}
     st, out = lifetimes.run_lifetime(JOB, args, setup, mode=mode, hashseed=hashseed, timeout=900)
